@@ -15,9 +15,9 @@ import (
 
 type enc struct{ t []string }
 
-func (e *enc) s(x string)  { e.t = append(e.t, vl.Hex(x)) }
-func (e *enc) n(x int)     { e.t = append(e.t, strconv.Itoa(x)) }
-func (e *enc) i(x int64)   { e.t = append(e.t, strconv.FormatInt(x, 10)) }
+func (e *enc) s(x string)   { e.t = append(e.t, vl.Hex(x)) }
+func (e *enc) n(x int)      { e.t = append(e.t, strconv.Itoa(x)) }
+func (e *enc) i(x int64)    { e.t = append(e.t, strconv.FormatInt(x, 10)) }
 func (e *enc) raw(x string) { e.t = append(e.t, x) }
 
 func (e *enc) anns(a parser.Annotations) {
